@@ -579,8 +579,11 @@ func getMultiBestPath(id string, pathList []*Path) []*Path {
 
 	// Attempt to find the first path that is both reachable and worse than the
 	// best path. Then return a slice paths from the best to that index.
+	bestStale := best.IsLLGRStale()
 	index := sort.Search(len(pathList), func(i int) bool {
-		return pathList[i].IsNexthopInvalid || pathList[i].Compare(best) != 0
+		// An LLGR-stale path is the least preferred one and is never
+		// equal-cost with a path that is not stale.
+		return pathList[i].IsNexthopInvalid || pathList[i].IsLLGRStale() != bestStale || pathList[i].Compare(best) != 0
 	})
 	return pathList[:index]
 }
